@@ -69,9 +69,14 @@ void ezc3d::DataNS::AnalogsNS::Analogs::subframe(const ezc3d::DataNS::AnalogsNS:
     if (idx == SIZE_MAX)
         _subframe.push_back(subframe);
     else{
-        if (idx >= nbSubframes())
+        if (idx >= nbSubframes()){
+            // subframe may be an element of _subframe, copy it before the vector grows
+            const ezc3d::DataNS::AnalogsNS::SubFrame source(subframe);
             _subframe.resize(idx+1);
-        _subframe[idx] = subframe;
+            _subframe[idx] = source;
+        }
+        else
+            _subframe[idx] = subframe;
     }
 }
 
